@@ -13,7 +13,9 @@ def generate(seed, profile='C03', length=60):
     def count(k):
         stats[k] = stats.get(k, 0) + 1
 
-    fl = r.choice([0, 1, 1, 2, 2, 3, 4])
+    # flavour 5: a class whose operator== is not declared noexcept; profile C13 adds one or two immediate bindings reading the property
+    # (instrumented function): a write of an equal value must not run it
+    fl = r.choice([0, 1, 1, 2, 2, 3, 4, 5] if profile != 'C13' else [0, 1, 1, 2, 5, 5, 5, 3, 4])
     pool = [0, 1, 2, 3, 10, 11, 12, 13, 21, 22, 35]
 
     def val():
@@ -26,9 +28,15 @@ def generate(seed, profile='C03', length=60):
     count(f'eqnew_flavour{fl}')
     last = init
     n = max(4, min(length, 40))
+    if profile == 'C13':
+        lines.append('ebind')
+        count('ebind')
     for _ in range(n):
         x = r.random()
-        if x < 0.08:
+        if profile == 'C13' and x < 0.03:
+            lines.append('ebind')
+            count('ebind')
+        elif x < 0.08:
             k = r.randrange(2)
             lines.append(f'eobs {k}')
             count('eobs')
@@ -52,4 +60,4 @@ def generate(seed, profile='C03', length=60):
 
 if __name__ == '__main__':
     seed = int(sys.argv[1]) if len(sys.argv) > 1 else 1
-    sys.stdout.write(generate(seed, 'C03', int(sys.argv[2]) if len(sys.argv) > 2 else 30)[0])
+    sys.stdout.write(generate(seed, sys.argv[3] if len(sys.argv) > 3 else 'C03', int(sys.argv[2]) if len(sys.argv) > 2 else 30)[0])
